@@ -1214,6 +1214,27 @@ def check_conv(c):
             return r
     if abs(float(torch.det(R1.reshape(3, 3))) - 1) > 1e-12:
         return ("C08:conversion:quaternion_to_rotation_matrix:det", "determinant != 1")
+    # batches: every conversion acts item by item — f(stack of inputs)[k] = f(input k) for N = 3 distinct items
+    qs = torch.cat([q, torch.nn.functional.normalize(q + torch.tensor([[0.3, -0.2, 0.1, 0.25]], dtype=f64), dim=-1),
+                    torch.nn.functional.normalize(q.flip(-1) + 0.1, dim=-1)], 0)
+    as_ = torch.cat([a, 0.5 * a, -a.flip(-1) + 0.2], 0)
+    Rs = L.quaternion_to_rotation_matrix(qs)
+    for name, fn, xs in (("quaternion_to_rotation_matrix", L.quaternion_to_rotation_matrix, qs),
+                         ("quaternion_to_angle_axis", L.quaternion_to_angle_axis, qs),
+                         ("angle_axis_to_quaternion", L.angle_axis_to_quaternion, as_),
+                         ("angle_axis_to_rotation_matrix", L.angle_axis_to_rotation_matrix, as_),
+                         ("rotation_matrix_to_quaternion", L.rotation_matrix_to_quaternion, Rs),
+                         ("rotation_matrix_to_angle_axis", L.rotation_matrix_to_angle_axis, Rs),
+                         ("quaternion_log_to_exp", L.quaternion_log_to_exp, 0.5 * as_),
+                         ("quaternion_exp_to_log", L.quaternion_exp_to_log, qs)):
+        try:
+            whole = fn(xs)
+            single = torch.cat([fn(xs[k:k + 1]) for k in range(xs.shape[0])], 0)
+        except Exception as e:
+            return (f"C08:conversion:{name}:batch:raises", f"{type(e).__name__}: {str(e)[:100]}")
+        if whole.shape != single.shape or float((whole - single).abs().max()) > 1e-9:
+            return (f"C08:conversion:{name}:batch", f"{name} of a batch of {xs.shape[0]} differs from the item-by-item results by "
+                    f"{float((whole - single).abs().max()) if whole.shape == single.shape else 'shape'}")
     return None
 
 
@@ -1281,7 +1302,8 @@ ORACLES = [
     Oracle("euler_roundtrip", gen_euler_roundtrip, check_euler_roundtrip,
            doc="euler_rotation_matrix(euler_rotation_angles(R)) = R for the implemented orders and 2-D"),
     Oracle("conversions", gen_conv, check_conv,
-           doc="quaternion / angle-axis / matrix conversions agree as matrices with independent numpy references"),
+           doc="quaternion / angle-axis / matrix conversions agree as matrices with independent numpy references; batches of "
+               "three distinct items convert item by item"),
     Oracle("transform_params", gen_txrt, check_txrt,
            doc="x_() -> x() round trips (also when requires_grad of the Parameter is switched off or on between setter and getter), matrix() = tensor() as a map, matrix_(R).tensor() = R"),
 ]
